@@ -5,6 +5,7 @@ package main
 import (
 	"fmt"
 	"go/token"
+	"go/types"
 	"golang.org/x/tools/go/ssa"
 	"strings"
 )
@@ -66,6 +67,92 @@ func runC07(cx *Ctx, r *Report) {
 		}
 	}
 	const depAcc, reqAcc = `"service_deposit_account"`, `"service_request_account"`
+	// ------------------------------------------------ (0) who is charged for
+	// The function that selects the providers of a batch returns the list and the total to
+	// charge. A price is added to the total exactly where its provider is appended to the
+	// list (same branch of the same iteration): a provider that is filtered out - over the
+	// consumer's fee cap, too slow, unavailable - must not be paid for, since no request
+	// (and so no refund) is ever created for it.
+	{
+		n := 0
+		for _, f := range cx.P.AllFuncs {
+			if f.Blocks == nil || !isConsensusCode(cx, f) || moduleOf(funcPkgPath(f)) != "service" {
+				continue
+			}
+			res := f.Signature.Results()
+			if res.Len() < 2 {
+				continue
+			}
+			isAddrSlice := func(t types.Type) bool {
+				sl, ok := t.Underlying().(*types.Slice)
+				return ok && typeIs(sl.Elem(), "github.com/cosmos/cosmos-sdk/types", "AccAddress")
+			}
+			if !isAddrSlice(res.At(0).Type()) || !typeIs(res.At(1).Type(), "github.com/cosmos/cosmos-sdk/types", "Coins") {
+				continue
+			}
+			var appends, adds []ssa.Instruction
+			for _, b := range f.Blocks {
+				if !inLoop(b) {
+					continue
+				}
+				for _, ins := range b.Instrs {
+					c, ok := ins.(*ssa.Call)
+					if !ok {
+						continue
+					}
+					if bi, isB := c.Common().Value.(*ssa.Builtin); isB && bi.Name() == "append" && isAddrSlice(c.Type()) {
+						appends = append(appends, ins)
+					}
+					if calleeIs(c, "cosmos-sdk/types", "Coins.Add") {
+						adds = append(adds, ins)
+					}
+				}
+			}
+			if len(appends) == 0 || len(adds) == 0 {
+				continue
+			}
+			n++
+			sameBranch := func(a, b ssa.Instruction) bool {
+				if a.Block() == b.Block() {
+					return true
+				}
+				fa, fb := map[*ssa.If]bool{}, map[*ssa.If]bool{}
+				for _, x := range dominatingFacts(a.Block()) {
+					fa[x.If] = x.Holds
+				}
+				for _, x := range dominatingFacts(b.Block()) {
+					fb[x.If] = x.Holds
+				}
+				if len(fa) != len(fb) {
+					return false
+				}
+				for k, v := range fa {
+					if w, ok := fb[k]; !ok || w != v {
+						return false
+					}
+				}
+				return true
+			}
+			ok := true
+			bad := ""
+			for _, ad := range adds {
+				m := false
+				for _, ap := range appends {
+					if sameBranch(ad, ap) {
+						m = true
+					}
+				}
+				if !m {
+					ok = false
+					bad = cx.P.Pos(ad.Pos())
+				}
+			}
+			r.check(ok, "charge-selected-only", shortFn(f), cx.P.Pos(f.Pos()), "a provider's price is added to the batch total exactly where the provider is appended to the selected list", "in "+shortFn(f)+" a price is added to the total to charge ("+bad+") under conditions that differ from those under which its provider is selected: the consumer pays for a provider that gets no request, and nothing ever refunds that amount")
+		}
+		if n == 0 {
+			r.toolErr("no provider-selection function (returns []AccAddress, Coins, …) found in the service keeper")
+		}
+	}
 	// ------------------------------------------------ (1) charged vs recorded fee
 	for _, name := range []string{"CallService", "EndBlock"} {
 		evs := per[name]
